@@ -23,6 +23,7 @@ meta = {
     'confirmed': {
         'demo_exit_on_unchanged_tree': res['demo_clean'], 'demo_exit_with_patch': res['demo_patched'],
         'existing_suite_failures_with_patch': res.get('suite_failures'),
+        'existing_suite_selection': res.get('suite_selection', 'whole suite (xrspatial/tests)'),
         'existing_suite_note': 'only the always-failing baseline test(s) fail' if res.get('suite_failures') is not None else 'suite run recorded in an earlier seedtest of the same patch',
         'ran': ['tools/seedtest.py %s %s  (fresh worktree of /repo HEAD; demo.py before/after git apply; pytest -n 6 xrspatial/tests on the patched tree; python3 run.py <check> --tier quick with VERIF_REPO=<patched tree>)' % (a.pid, a.k)],
     },
